@@ -109,6 +109,12 @@ func init() {
 		oneshot := c.A["oneshot"] == "1"
 		msg := bytes.Join(pieces, nil)
 		out, left, err := implSign(mode, v, sk, pieces, rng, oneshot)
+		if f := retainedChanged(); f != nil {
+			fs = append(fs, *f)
+		}
+		if err == nil && oneshot {
+			retain("Sign/SignDetached", out)
+		}
 		got := "err " + errClass(err)
 		if err == nil {
 			got = fmt.Sprintf("ok %s %d", hx(out), left)
@@ -259,6 +265,16 @@ func init() {
 		}
 		o := implVerifyStream(vd, ring, input, bufsize, plainReader)
 		got := o.String()
+		// the same stream pulled the way many callers do (a fixed-size prefix, then io.Copy): same outcome
+		for _, k := range []int{1, 16, 1 << 20} {
+			consumePattern = k
+			o2 := implVerifyStream(vd, ring, input, bufsize, plainReader)
+			consumePattern = 0
+			if o2.String() != got {
+				fs = append(fs, Failure{Kind: "oracle", Key: "verify-result-depends-on-read-pattern", Desc: fmt.Sprintf("read loop: %.150s | %d-byte prefix then io.Copy: %.150s", got, k, o2.String())})
+				break
+			}
+		}
 		m := strings.Join(h.rn.Call("verify_stream", c.A["vd"], c.A["ring"], hx(input)), " ")
 		if strings.Contains(m, "Unmodelled") {
 			h.res.Unmodelled++
